@@ -301,23 +301,33 @@ def triOfFace (f : List Nat) : Option Surface.Tri :=
   | some a, some b, some c => some (a, b, c)
   | _, _, _ => none
 
-def applyWind (w : Nat × Nat × Nat) (f : List Nat) : Option Surface.Tri :=
-  match f[w.1]?, f[w.2.1]?, f[w.2.2]? with
-  | some a, some b, some c => some (a, b, c)
-  | _, _, _ => none
+/-- node order of an interface face in a daughter: entry `i` of the triple selects node `i` of the mesh face -/
+def windTri (w : Nat × Nat × Nat) (t : Surface.Tri) : Surface.Tri :=
+  let sel := fun (i : Nat) => if i == 0 then t.1 else if i == 1 then t.2.1 else t.2.2
+  (sel w.1, sel w.2.1, sel w.2.2)
+
+/-- the indices `f_id` pushed to `faces_to_remove_k`: those whose side test has the value `v` -/
+def sideIdx (S : List Surface.Tri) (side : Surface.Tri → Bool) (v : Bool) : List Nat :=
+  (List.range S.length).filter (fun i => match S[i]? with | some t => side t == v | none => false)
+
+/-- the surface faces each daughter keeps -/
+def splitSurface (S : List Surface.Tri) (side : Surface.Tri → Bool) : List Surface.Tri × List Surface.Tri :=
+  (removeIdx S (sideIdx S side Gen.Division.removeFromD1WhenSide),
+   removeIdx S (sideIdx S side (!Gen.Division.removeFromD1WhenSide)))
+
+/-- the side test of `create_daughter_cells` on a triangle of the mesh -/
+def sideOf (m : Mesh R) (p n : V3 R) (t : Surface.Tri) : Bool :=
+  let pos := fun i => match m.nodes[i]? with | some q => q | none => zeroV3
+  Gen.Division.faceSide (pos t.1) (pos t.2.1) (pos t.2.2) p n
 
 /-- the face lists of the two daughters before `initialize_cell_properties`:
     surface faces split by `face_side_wrt_plane`, interface faces appended with the two windings -/
 def daughterFaces (m : Mesh R) (fthr : Nat) (p n : V3 R) : Except DErr (List Surface.Tri × List Surface.Tri) :=
-  match (m.faces.toList.take fthr).mapM triOfFace, (m.faces.toList.drop fthr).mapM (applyWind Gen.Division.windD1),
-        (m.faces.toList.drop fthr).mapM (applyWind Gen.Division.windD2) with
-  | some S, some D1, some D2 =>
-    let pos := fun i => match m.nodes[i]? with | some q => q | none => zeroV3
-    let side := fun (t : Surface.Tri) => Gen.Division.faceSide (pos t.1) (pos t.2.1) (pos t.2.2) p n
-    let rm1 := (List.range S.length).filter (fun i => match S[i]? with | some t => side t == Gen.Division.removeFromD1WhenSide | none => false)
-    let rm2 := (List.range S.length).filter (fun i => match S[i]? with | some t => side t != Gen.Division.removeFromD1WhenSide | none => false)
-    .ok (removeIdx S rm1 ++ D1, removeIdx S rm2 ++ D2)
-  | _, _, _ => .error .ub
+  match (m.faces.toList.take fthr).mapM triOfFace, (m.faces.toList.drop fthr).mapM triOfFace with
+  | some S, some D =>
+    let MM := splitSurface S (sideOf m p n)
+    .ok (MM.1 ++ D.map (windTri Gen.Division.windD1), MM.2 ++ D.map (windTri Gen.Division.windD2))
+  | _, _ => .error .ub
 
 /-- six times the signed volume enclosed by a triangle list -/
 def tet6 (a b c : V3 R) : R := V3.dot a (V3.cross b c)
